@@ -46,6 +46,22 @@ Theorem C03_write_sites_coherent : forallb write_site_ok (calls_of T_calls "chan
 Proof. vm_compute. reflexivity. Qed.
 Theorem C03_sample_sites_coherent : forallb sample_site_ok (calls_of T_calls "add_new_sample") = true.
 Proof. vm_compute. reflexivity. Qed.
+(* deferred commits (init.run_in_parallel): the point number passed to the commit is the one captured with the evaluation.
+   Every use of `eval_nx` is in a function where (i) eval_nx is component 4 of the same 5-tuple whose component 0 is
+   rvec_list, and (ii) the only producer of those tuples appends evaluate_objective(...) + (self.nx,) *)
+Definition funcs_using_eval_nx : list string :=
+  map c_func (filter (fun c => mem "eval_nx" (c_args c)) (calls_of T_calls "save_point" ++ calls_of T_calls "change_point" ++ calls_of T_calls "add_new_point")).
+Definition eval_nx_provenance_ok (f : string) : bool :=
+  let en := filter (fun a => streq (a_func a) f && streq (a_name a) "eval_nx") T_assigns in
+  let ap := filter (fun c => streq (c_func c) f && streq (c_dotted c) "eval_obj_results.append") T_calls in
+  negb (Nat.eqb (List.length en) 0) && negb (Nat.eqb (List.length ap) 0) &&
+  forallb (fun a => Z.eqb (a_index a) 4 && Z.eqb (a_arity a) 5 && prefix "eval_obj_results[" (a_value a) &&
+                    existsb (fun r => streq (a_func r) f && streq (a_name r) "rvec_list" && streq (a_value r) (a_value a) && Z.eqb (a_index r) 0 &&
+                                      Z.eqb (a_line r) (a_line a)) T_assigns) en &&
+  forallb (fun c => slist_eq (c_args c) ["self.evaluate_objective(x, number_of_samples, params) + (self.nx,)"]) ap.
+Theorem C03_deferred_point_numbers_coherent :
+  forallb eval_nx_provenance_ok funcs_using_eval_nx = true /\ Z.leb 4 (Z.of_nat (List.length funcs_using_eval_nx)) = true.
+Proof. vm_compute. split; reflexivity. Qed.
 (* swap_points is not used by the solver (no history of solve() contains it) *)
 Theorem C03_no_swap_in_solver : calls_of T_calls "swap_points" = [].
 Proof. vm_compute. reflexivity. Qed.
@@ -159,6 +175,7 @@ End O.
 End C03.
 
 Print Assumptions C03_save_sites_coherent.
+Print Assumptions C03_deferred_point_numbers_coherent.
 Print Assumptions C03_write_sites_coherent.
 Print Assumptions C03_sample_sites_coherent.
 Print Assumptions C03_result_tuples_forwarded.
